@@ -191,4 +191,61 @@ that appears in or disappears from the translator's set, a renamed one, or any c
 breaks this single equality. -/
 theorem skel_all_covered : NA.Gen.Skel.all = covered := by decide
 
+/-- The skeleton theorems of every function a `compare` run can reach (do-approve / drc front end,
+ApproveOrCompare, compare, LoadDevice of the five backends with everything it calls, the console
+and HTTP primitives, CloseConnection, the status and history writers): for properties that are
+about compare runs only (C11). -/
+def comparePathSkel : List Lean.Name := [
+  ``NA.C09.skel_device_ApproveOrCompare,
+  ``NA.C09.skel_device_compare,
+  ``NA.C09.skel_device_compareDevice,
+  ``NA.C09.skel_device_showCompareInfo,
+  ``NA.C09.skel_errlog_HandleAbort,
+  ``NA.C09.skel_errlog_Abort,
+  ``NA.C09.skel_doapprove_Main,
+  ``NA.C09.skel_status_SetCompare,
+  ``NA.C09.skel_console_Send,
+  ``NA.C09.skel_console_SendCmd,
+  ``NA.C09.skel_console_IssueCmd,
+  ``NA.C09.skel_console_GetCmdOutput,
+  ``NA.C09.skel_console_GetOutput,
+  ``NA.C09.skel_console_waitPrompt,
+  ``NA.C09.skel_console_WaitShort,
+  ``NA.C09.skel_console_WaitLogin,
+  ``NA.C09.skel_console_expectLog,
+  ``NA.C09.skel_console_StripEcho,
+  ``NA.C09.skel_console_StripStdPrompt,
+  ``NA.C09.skel_console_Close,
+  ``NA.C09.skel_cisco_LoginEnable,
+  ``NA.C09.skel_cisco_LoginEnable_waitPrompt,
+  ``NA.C09.skel_httpdevice_TryReachableHTTPLogin,
+  ``NA.C09.skel_asa_LoadDevice,
+  ``NA.C09.skel_asa_setTerminal,
+  ``NA.C09.skel_asa_logVersion,
+  ``NA.C09.skel_asa_checkDeviceName,
+  ``NA.C09.skel_asa_CloseConnection,
+  ``NA.C09.skel_ios_LoadDevice,
+  ``NA.C09.skel_ios_setTerminal,
+  ``NA.C09.skel_ios_logVersion,
+  ``NA.C09.skel_ios_checkDeviceName,
+  ``NA.C09.skel_ios_CloseConnection,
+  ``NA.C09.skel_linux_LoadDevice,
+  ``NA.C09.skel_linux_loginEnable,
+  ``NA.C09.skel_linux_logVersion,
+  ``NA.C09.skel_linux_checkDeviceName,
+  ``NA.C09.skel_linux_checkBanner,
+  ``NA.C09.skel_linux_getDeviceRoutes,
+  ``NA.C09.skel_linux_getDeviceIPTables,
+  ``NA.C09.skel_linux_CloseConnection,
+  ``NA.C09.skel_panos_LoadDevice,
+  ``NA.C09.skel_panos_getAPIKey,
+  ``NA.C09.skel_panos_checkHA,
+  ``NA.C09.skel_panos_httpPrefixGetLog,
+  ``NA.C09.skel_panos_httpGet,
+  ``NA.C09.skel_panos_CloseConnection,
+  ``NA.C09.skel_nsx_LoadDevice,
+  ``NA.C09.skel_nsx_getRawJSON,
+  ``NA.C09.skel_nsx_sendRequest,
+  ``NA.C09.skel_nsx_CloseConnection]
+
 end NA.C09
